@@ -45,10 +45,11 @@ const (
 	kObsCounter
 	kObsUpDown
 	kObsGauge
+	kObsCounterF // float64 observable counter whose callback is given at creation (WithFloat64Callback)
 )
 
 func (k instKind) String() string {
-	return [...]string{"counter_i", "counter_f", "updown_i", "hist_i", "gauge_i", "hist_exp", "obs_counter", "obs_updown", "obs_gauge"}[k]
+	return [...]string{"counter_i", "counter_f", "updown_i", "hist_i", "gauge_i", "hist_exp", "obs_counter", "obs_updown", "obs_gauge", "obs_counter_f"}[k]
 }
 
 func (k instKind) isSum() bool   { return k == kCounterI || k == kCounterF || k == kUpDownI }
@@ -339,7 +340,7 @@ func asyncValue(in *inst, s attrSet, cycle int) (int64, bool) {
 		return 0, false
 	}
 	switch in.kind {
-	case kObsCounter:
+	case kObsCounter, kObsCounterF:
 		return int64(100*(cycle+1) + 10*s.a + s.b + 1), true
 	case kObsUpDown:
 		return int64(50 + (cycle%3)*20 - 7*s.a + s.b), true
@@ -362,11 +363,11 @@ func (engine) Body(r *simdrv.Run) {
 	w.interval = times[1+r.Cfg(3)]
 	perTimeout := times[r.Cfg(len(times))]
 	w.perTemp = []metricdata.Temporality{metricdata.DeltaTemporality, metricdata.CumulativeTemporality}[r.Cfg(2)]
-	viewMode := r.Cfg(5) // 0 none, 1 filter on counter_i, 2 rename counter_f + drop hist, 3 two views on updown, 4 histogram re-aggregated as a (renamed) sum
+	viewMode := r.Cfg(7) // 5: drop view in front of a keeping view on one instrument, 6: three views of which two non-adjacent ones yield the same stream; 0 none, 1 filter on counter_i, 2 rename counter_f + drop hist, 3 two views on updown, 4 histogram re-aggregated as a (renamed) sum
 	w.bounds = []float64{1, 4, 16, 256, 65536}
 
 	// instruments
-	kinds := []instKind{kCounterI, kCounterF, kUpDownI, kHistI, kGaugeI, kHistExpF, kObsCounter, kObsUpDown, kObsGauge}
+	kinds := []instKind{kCounterI, kCounterF, kUpDownI, kHistI, kGaugeI, kHistExpF, kObsCounter, kObsUpDown, kObsGauge, kObsCounterF}
 	expMaxSize := []int32{4, 4, 8, 160}[r.Cfg(4)]
 	expMaxScale := []int32{0, 3, 20}[r.Cfg(3)]
 	for i, k := range kinds {
@@ -379,6 +380,11 @@ func (engine) Body(r *simdrv.Run) {
 			in.streams = []stream{{name: "renamed_counter_f"}}
 		case viewMode == 2 && k == kHistI:
 			in.streams = []stream{{name: in.name, dropped: true}}
+		case viewMode == 5 && k == kHistI:
+			in.streams = []stream{{name: "hist_kept"}}
+			in.asSum = true
+		case viewMode == 6 && k == kCounterI:
+			in.streams = []stream{{name: "counter_i"}, {name: "counter_i_renamed"}}
 		case viewMode == 4 && k == kHistI:
 			in.streams = []stream{{name: "hist_as_sum"}}
 			in.asSum = true
@@ -490,6 +496,15 @@ func (engine) Body(r *simdrv.Run) {
 		opts = append(opts, sdkmetric.WithView(
 			sdkmetric.NewView(sdkmetric.Instrument{Name: "counter_f"}, sdkmetric.Stream{Name: "renamed_counter_f"}),
 			sdkmetric.NewView(sdkmetric.Instrument{Name: "hist_i"}, sdkmetric.Stream{Aggregation: sdkmetric.AggregationDrop{}})))
+	case 5:
+		opts = append(opts, sdkmetric.WithView(
+			sdkmetric.NewView(sdkmetric.Instrument{Name: "hist_*"}, sdkmetric.Stream{Aggregation: sdkmetric.AggregationDrop{}}),
+			sdkmetric.NewView(sdkmetric.Instrument{Name: "hist_i"}, sdkmetric.Stream{Name: "hist_kept", Aggregation: sdkmetric.AggregationSum{}})))
+	case 6:
+		opts = append(opts, sdkmetric.WithView(
+			sdkmetric.NewView(sdkmetric.Instrument{Name: "counter_i"}, sdkmetric.Stream{}),
+			sdkmetric.NewView(sdkmetric.Instrument{Name: "counter_i"}, sdkmetric.Stream{Name: "counter_i_renamed"}),
+			sdkmetric.NewView(sdkmetric.Instrument{Name: "counter_*", Kind: sdkmetric.InstrumentKindCounter}, sdkmetric.Stream{})))
 	case 4:
 		opts = append(opts, sdkmetric.WithView(sdkmetric.NewView(sdkmetric.Instrument{Name: "hist_i"}, sdkmetric.Stream{Name: "hist_as_sum", Aggregation: sdkmetric.AggregationSum{}})))
 	case 3:
@@ -511,6 +526,29 @@ func (engine) Body(r *simdrv.Run) {
 	ou, _ := meter.Int64ObservableUpDownCounter("obs_updown")
 	og, _ := meter.Int64ObservableGauge("obs_gauge")
 	obsInst := map[int]metric.Int64Observable{6: oc, 7: ou, 8: og}
+	// the float64 observable counter gets its callback at creation: always registered, routed per reader
+	ocf := w.insts[9]
+	_, _ = meter.Float64ObservableCounter("obs_counter_f", metric.WithFloat64Callback(func(_ context.Context, o metric.Float64Observer) error {
+		task := sim.CurrentTask()
+		c := w.curColl[task]
+		if c == nil {
+			c = &collection{reader: "P", observed: map[int]map[string]int64{}}
+			w.curColl[task] = c
+		}
+		if c.observed == nil {
+			c.observed = map[int]map[string]int64{}
+		}
+		if c.observed[ocf.idx] == nil {
+			c.observed[ocf.idx] = map[string]int64{}
+		}
+		for _, s := range asyncSets {
+			if v, ok := asyncValue(ocf, s, w.cycle); ok {
+				o.Observe(float64(v), metric.WithAttributes(s.kvs()...))
+				c.observed[ocf.idx][s.key(nil)] = v
+			}
+		}
+		return nil
+	}))
 	regHandles := map[int]metric.Registration{}
 
 	// one callback per async instrument; it records what it observes into the collecting task's record
@@ -600,7 +638,31 @@ func (engine) Body(r *simdrv.Run) {
 		if reader == "C" {
 			rdr = rc
 		}
-		c.err = rdr.Collect(context.Background(), &rm)
+		ctx, cancel := context.Background(), context.CancelFunc(func() {})
+		if joint == 0 && sim.Draw(6) == 0 {
+			// a caller deadline that may expire while the collection is under way (or before it starts)
+			if k := sim.Draw(5); k < 3 {
+				ctx, cancel = context.WithTimeout(ctx, []time.Duration{time.Nanosecond, time.Millisecond, 10 * time.Millisecond}[k])
+				r.Fault("collect-with-expiring-ctx")
+			} else {
+				// cancelled by another task after a drawn number of its scheduling turns, so that the
+				// cancellation lands at an arbitrary statement of the collection
+				ctx, cancel = context.WithCancel(ctx)
+				n, cf := sim.Draw(40), cancel
+				simrt.Go(simdrv.PtStub, func() {
+					for i := 0; i < n; i++ {
+						simrt.Yield(simdrv.PtStub)
+					}
+					cf()
+				})
+				r.Fault("collect-cancelled-midway")
+			}
+		}
+		c.err = rdr.Collect(ctx, &rm)
+		cancel()
+		if c.err != nil {
+			r.Fault("collect-returned-error")
+		}
 		c.ret = sim.Stamp()
 		delete(w.curColl, task)
 		c.data = extract(&rm)
